@@ -80,7 +80,7 @@ def run(ctx):
             got = [(x.cond_strs(), x.value_str()) for x in rows]
             want = [(['class ~ amq_protocol::protocol::AMQPClass::%s(_)' % cls.capitalize(), 'class.%s.0 ~ amq_protocol::protocol::%s::AMQPMethod::%s(_)' % (cls.capitalize(), cls, meth)],
                      'Ok(class.%s.0.%s.0)' % (cls.capitalize(), meth)),
-                    (['class ~ not amq_protocol::protocol::AMQPClass::%s(amq_protocol::protocol::%s::AMQPMethod::%s(_))' % (cls.capitalize(), cls, meth)], 'errors::FrameUnexpectedSnafu::fail(errors::FrameUnexpectedSnafu)')]
+                    (['class ~ not amq_protocol::protocol::AMQPClass::%s(amq_protocol::protocol::%s::AMQPMethod::%s(_))' % (cls.capitalize(), cls, meth)], 'Err(errors::Error::FrameUnexpected)')]
             r.eq('try_from:%s::%s' % (cls, meth), got, want, ctx.site(p), why='a reply of another type must be rejected, the right one unwrapped')
         r.check('try_from-impls', n == 22, None, built=n, expected=22)
 
@@ -129,7 +129,7 @@ def run(ctx):
         bad = [x for x in rows if x not in okr]
         r.check('call_message:ok', len(okr) == 1 and okr[0].effects[:2] == [H0 + 'send(self, message)', H0 + 'recv(self)'] and okr[0].value_str() == 'serialize::TryFromAmqpClass::try_from(%srecv(self)?.Method.0)' % H0, site,
                 built=[x.row() for x in okr], why='send, then wait on the same handle, then check the reply type')
-        r.check('call_message:other', len(bad) == 1 and bad[0].value_str() == 'errors::FrameUnexpectedSnafu::fail(errors::FrameUnexpectedSnafu)', site, built=[x.row() for x in bad])
+        r.check('call_message:other', len(bad) == 1 and bad[0].value_str() == 'Err(errors::Error::FrameUnexpected)', site, built=[x.row() for x in bad])
         evs, _ = ctx.events(H0 + 'call_message')
         tr = [S.show(e.term) for e in evs if e.kind == 'try']
         r.eq('call_message:send-error-propagated', tr, [H0 + 'send(self, message)?', H0 + 'recv(self)?'], site)
